@@ -27,6 +27,8 @@ package pixelbt
 
 //@ func FeedLog$1
 //@   returns (b, err)
+//@   // the closure hands on ITS OWN context, the one of the feed cycle (not a longer-lived one from outside)
+//@   atcall[C19.ctx,C13.ctx] fetch: $arg1 == ctx
 //@   requires c != nil && lURL != nil
 //@   modifies heap
 //@   ensures[C19.s] true
